@@ -79,13 +79,25 @@ def build():
         # mentions `self.depth` (e.g. `let too_deep = ..;` feeding a merged guard) is a different code shape -> undecided
         if not re.match(r"^\s*if\b[^{]*\{\s*return;\s*\}\s*$", st.text, re.S):
             raise LostAnchor("the top-level statement of visit_dir that reads self.depth is not a guard `if .. { return; }`")
+        # the level an input path is visited at: 4th argument of the first `self.visit_path(` call of `run`
+        run = src.fn_in(impl, "pub fn run<I, F>(")
+        e0 = src.call_arg(run, "self.visit_path", 3, occurrence=0)
         ub.spec('''
-    // ---- the depth guard of visit_dir (`level`: 0 for an input path, +1 per directory below it). Documented (config.rs,
-    // README): --depth 0 does not descend into directories at all, --depth 1 reads the directories given as input paths but
-    // not their sub-directories: a directory is read iff its level is below the limit.
-    fn visit_dir_depth_guard(&self, level: usize) -> (reads_the_directory: bool)
-        ensures reads_the_directory == (level < self.depth), // @ob C09.depth.a_directory_is_read_iff_its_level_is_below_the_depth_limit
+    // ---- the depth guard of visit_dir, for a directory `dirs_below_the_input_path` levels below an input path. The level
+    // variable starts at whatever `run` hands to an input path (expression slice) and grows by one per directory (slice
+    // below), so the obligation does not depend on the encoding (0-based with `>=`, 1-based with `>`, ..). Documented
+    // (config.rs, README): --depth 0 does not descend into directories at all, --depth 1 reads the directories given as
+    // input paths but not their sub-directories: a directory k levels below an input path is read iff k < depth.
+    fn visit_dir_depth_guard(&self, dirs_below_the_input_path: usize) -> (reads_the_directory: bool)
+        requires dirs_below_the_input_path < usize::MAX - 1024,
+        ensures reads_the_directory == (dirs_below_the_input_path < self.depth), // @ob C09.depth.a_directory_is_read_iff_its_level_is_below_the_depth_limit
     {
+        let verif_level_of_an_input_path: usize = {
+            ''')
+        ub.piece(Piece(e0))
+        ub.spec('''
+        };
+        let level: usize = verif_level_of_an_input_path + dirs_below_the_input_path;
 ''')
         ub.piece(Piece(st, renames=(("return;", "return false;"),)))
         ub.spec("\n        true\n    }\n")
@@ -95,7 +107,7 @@ def build():
         fn = src.fn_in(impl, "fn visit_dir<'s, 'w, F>(")
         e = src.call_arg(fn, "self.visit_entry", 3)
         ub.spec('''
-    // ---- expression slices: the nesting level handed to the entries of a directory and to an input path
+    // ---- expression slice: the nesting level handed to the entries of a directory
     fn level_of_the_entries_of_a_directory(level: usize) -> (r: usize)
         requires level < usize::MAX,
         ensures r == level + 1, // @ob C09.depth.entries_of_a_directory_are_one_level_deeper
@@ -103,16 +115,7 @@ def build():
         ''')
         ub.piece(Piece(e))
         ub.spec("\n    }\n")
-        run = src.fn_in(impl, "pub fn run<I, F>(")
-        e0 = src.call_arg(run, "self.visit_path", 3, occurrence=0)
-        ub.spec('''
-    fn level_of_an_input_path() -> (r: usize)
-        ensures r == 0, // @ob C09.depth.input_paths_are_at_level_0
-    {
-        ''')
-        ub.piece(Piece(e0))
-        ub.spec("\n    }\n")
-    ub.optional("nesting levels", levels, prefixes=["C09.depth.entries", "C09.depth.input_paths"])
+    ub.optional("nesting level of the entries of a directory", levels, prefixes=["C09.depth.entries"])
 
     def link():
         fn = src.fn_in(impl, "fn visit_link<'s, 'w, F>(")
